@@ -18,6 +18,22 @@ CLAIMED = {
              text="Every interleaving of the state-changing calls up to the bound is enumerated in the model and each transition is executed on real server instances with a full observation of every live instance after every step; long random histories are validated as behaviours of the same specification.",
              note="History depth 4 (quick) / 5 (thorough) with <=3 instances and a 4/6-tag universe are exhaustive; beyond that sampled. Group/PRF values ideal: answers compared by value with the first answer seen for (key, tag, point).",
              ref="5/C14"),
+ "C01": dict(level="model_checking", technique="TLA+ Adss.tla/Star.tla symbolic model, MC_Star scenario machine model-checked by TLC (all inbox sequences with repetition); predicted behaviours replayed through the real generate/encode/decode/recover/decrypt path under several byte valuations; random large-threshold scenarios trace-validated (Trace_Star)",
+             text="All selections (subsets, permutations, duplications, surplus) over small client populations are enumerated by TLC with the invariant ThresholdRecovery and executed on the real crates; thresholds up to 64/200 and block-sized inputs are covered by recorded scenarios that must be behaviours of the same specification.",
+             note="Ideal primitives in the model; data dimension sampled by valuations (1 B .. 700 B symbols, block boundaries), history dimension exhaustive up to inbox length 4/5.",
+             ref="5/C01"),
+ "C05": dict(level="fault_enumeration", technique="TLC enumerates every inbox sequence with one altered share (10 field-level fault kinds, every position) on MC_Star with invariant AuthenticatedRecovery; verdicts replayed on real encoded shares; byte-level sweep of every offset x 5 data faults x share position",
+             text="The fault space (field x position x collection shape) is enumerated by the model checker, each fault is realised on the real encoding and the verdict compared; every byte of the share layout is additionally altered at three share positions.",
+             note="Ideal MAC/cipher in the model; two degenerate alterations are accepted by design and modelled (x of a threshold-1 share, y of a sharing with empty message and coins).",
+             ref="5/C05"),
+ "C16": dict(level="model_checking", technique="MC_Star over direct ADSS sharings (thresholds 0..3, empty strings, custom transcript) model-checked by TLC and replayed through Commune::new/share/recover with byte-wise comparison of independent invocations and re-sharing; size sweep to 100 kB / t=128",
+             text="Determinism, recovery, re-sharing, zero threshold and transcript separation are invariants of the symbolic ADSS model checked over all small collections, and each behaviour is executed on the real crate.",
+             note="Ideal primitives; lengths and thresholds beyond the model are sampled on block-boundary lattices.",
+             ref="5/C16"),
+ "C17": dict(level="model_checking", technique="honest MC_Star behaviours (TLC-enumerated) executed through star_wasm::create_share/group_shares called natively, with UTF-8 valuations; create_share output compared with the core library",
+             text="The grouping call is judged against the model's recovery verdict for every enumerated collection (counts around the threshold, mixtures, wrong epoch) and the creation call against the core derivation.",
+             note="Native call of the rlib, not a WASM runtime; epochs restricted to UTF-8 by the API.",
+             ref="5/C17"),
 }
 NA_REASON = "check not built yet in this round (planned: see DESIGN.md section 5); not claimed until its machinery exists"
 
